@@ -42,15 +42,18 @@ ASSUMPTIONS = ["theorems assume a well-formed tree (Coll.wf: names non-empty, do
                "add_collection / from_module produce when no two names clash; clashing trees are compared "
                "model-vs-code only",
                "names with an empty component ('sub.', 'a..b') are not canonical dotted names (don't-care for the oracle)",
-               "listing_once / listing_aliases_match are proved for trees with one auto_dash_names setting (mixed settings: "
-               "known finding N4); primary_names_distinct and listings_agree hold without that restriction",
+               "flat and nested listings must show root-normalised (CLI) names on every well-formed tree, mixed "
+               "auto_dash_names included; the JSON listing describes each collection locally: its task records must carry "
+               "the binding name and aliases in the holding collection's own spelling (it cannot be read as dotted CLI "
+               "names anyway: collection-node names are unconstrained)",
                "the `name` field of collection nodes in the JSON listing is not constrained (adjudicated don't-care)"]
 LEVEL_TEXT = ("Lean 4 proofs over ALL well-formed namespace trees and all component-wise names: the names accepted by "
               "Parser(contexts=to_contexts()) are exactly the canonical names task_with_config resolves "
               "(cli_names_eq_lookup), an accepted name runs the task lookup returns (accepted_runs_lookup), the "
               "flat/nested/json listings contain each task binding exactly once with exactly its aliases and agree "
-              "with each other (listing_once_all_formats, listings_agree), for one auto_dash_names setting each task "
-              "appears exactly once under its primary name - primary names are pairwise distinct - with its aliases "
+              "with each other (listing_once_all_formats, listings_agree), in every well-formed tree - mixed auto_dash_names "
+              "included - each task appears exactly once under its primary name - primary names are pairwise distinct - "
+              "with its aliases "
               "(primary_names_distinct, listing_once, listing_aliases_match), and transform is idempotent / last-wins so every name is normalised consistently "
               "(transform_consistent); the model is tied to invoke.collection + Program listing code on every run by "
               "a differential check on generated trees (real objects serialised) and direct oracles")
@@ -606,12 +609,13 @@ def parse_nested(text, root):
         lvl = len(m.group(1)) // 4
         stack = stack[:lvl]
         cur = root
-        for k in stack:
-            cur = dict.get(cur.collections, k)
+        for k in stack:  # displayed names are (re-)normalised: find the child whose key differs at most in '-'/'_'
+            cur = next((sc for kk, sc in dict.items(cur.collections) if only_dash_diff(kk, k)), None)
             if cur is None:
                 break
         name = m.group(3)
-        if cur is not None and dict.__contains__(cur.collections, name) and not m.group(4) and m.group(5) is None:
+        is_coll = cur is not None and any(only_dash_diff(kk, name) for kk in dict.keys(cur.collections))
+        if is_coll and not m.group(4) and m.group(5) is None:
             out.append(("c", list(stack), name))
             stack.append(name)
         else:
@@ -824,29 +828,30 @@ def oracle_listings(spec, root, infos):
         if not any(only_dash_diff(n, i["primary"]) for i in infos):
             fails.append(("listing-unknown", "flat listing shows %r which is no task's primary name" % n, [n]))
     # ---- nested: a task line sits under the chain of its collection lines
+    fold = lambda x: x.replace("-", "_")  # noqa: E731
     nl = {}
     for l in nested:
         if l[0] == "t":
-            nl.setdefault((tuple(l[1]), l[2]), []).append(l)
+            nl.setdefault((tuple(fold(x) for x in l[1]), fold(l[2])), []).append(l)
     for i in infos:
-        anc = tuple(k for _, k in i["path_keys"])
         want_anc = tuple(norm(root_ad, raw) for raw, _ in i["path_keys"])
         want_name = norm(root_ad, i["raw"])
-        got = nl.get((anc, i["key"]))
+        anc = want_anc
+        got = nl.get((tuple(fold(x) for x in want_anc), fold(want_name)))
         if got is None:
-            fails.append(("listing-missing", "nested listing lacks task %r under %r" % (i["key"], anc), [i["primary"]]))
+            fails.append(("listing-missing", "nested listing lacks task %r under %r" % (want_name, want_anc), [i["primary"]]))
             continue
         if len(got) != 1:
             fails.append(("listing-duplicate", "nested listing shows %r %d times" % (i["primary"], len(got)), [i["primary"]]))
-        if (anc, i["key"]) != (want_anc, want_name):
-            fails.append(("listing-dash-spelling", "nested listing shows task #%d as %s, its CLI name is %r" % (i["vid"], "/".join(anc + (i["key"],)), i["primary"]), [i["primary"]]))
+        if (tuple(got[0][1]), got[0][2]) != (want_anc, want_name):
+            fails.append(("listing-dash-spelling", "nested listing shows task #%d as %s, its CLI name is %r" % (i["vid"], "/".join(list(got[0][1]) + [got[0][2]]), i["primary"]), [i["primary"]]))
         shown = sorted(got[0][4])
         want_als = sorted(norm(root_ad, a) for a in i["aliases_raw"])
         if shown != want_als:
             kind = "listing-dash-spelling" if len(shown) == len(want_als) and all(only_dash_diff(x, y) for x, y in zip(shown, want_als)) else "listing-aliases"
             fails.append((kind, "nested listing shows %r with aliases %r, expected %r" % (i["primary"], shown, want_als), [i["primary"]]))
         if bool(got[0][5]) != bool(anc):
-            fails.append(("listing-dot", "nested listing: leading dot of %r does not match its depth" % i["key"], [i["primary"]]))
+            fails.append(("listing-dot", "nested listing: leading dot of %r does not match its depth" % want_name, [i["primary"]]))
     if len([l for l in nested if l[0] == "t"]) != len(infos):
         fails.append(("listing-count", "nested listing has %d task lines for %d tasks" % (len([l for l in nested if l[0] == "t"]), len(infos)), []))
     # ---- json: walk the real tree and the document in parallel (collection node names are not constrained)
@@ -1268,7 +1273,7 @@ def history_shared(spec, hseed):
     # a second root mounting one of the sub-collections (the very same object) under another name
     snode, spath = hrng.choice(inner)
     shared_real = node_at(spec, root, spath)[1]
-    oad = hrng.choice([True, False]) if len(flags_of(spec)) > 1 else eff_ad(spec)  # keep uniform trees uniform (N4)
+    oad = hrng.choice([eff_ad(spec), eff_ad(spec), not eff_ad(spec)])
     ospec = {"name": None, "ad": oad, "tasks": [{"fn": "other_task", "tname": None, "own": [], "bind": None, "extra": [], "default": None}],
              "colls": [{"node": snode, "bind": "shared_x", "default": False}], "cfg": {}, "via": "methods"}
     other = Collection(auto_dash_names=oad)
@@ -1489,13 +1494,3 @@ def replay(case):
     if fails:
         return False, "; ".join("%s: %s" % (k, w) for k, w, _ in fails[:3])
     return True, "ok (%d names)" % len(case["names"])
-
-
-def match_known(entry, failure):
-    """N4: only listing spellings that differ in '-'/'_' on a tree that mixes auto_dash_names settings"""
-    if entry.get("id") != "C10-N4-mixed-dash-listing":
-        return False
-    case = failure["case"]
-    if case.get("check") != "listing-dash-spelling" or not case.get("tree"):
-        return False
-    return len(flags_of(case["tree"])) > 1
